@@ -37,7 +37,7 @@ async def run_bt_async(D: dict, suspend: str = "sleep0", seed: int = 0, dup_subs
     orders: List[dict] = []
     state = {"next_id": 1000, "njobs": len(D["jobs"]) + 1, "pending": [], "running": True, "stop_requested": False}
     events: List[dict] = []
-    sched: List[dict] = [{"id": k, "when": j["when"], "at": 0} for k, j in enumerate(D["jobs"], start=1)]
+    sched: List[dict] = [{"id": k, "when": j["when"], "at": 0, "late": False} for k, j in enumerate(D["jobs"], start=1)]
 
     class Ev(bsevent.Event):
         def __init__(self, when, vid, src):
@@ -75,7 +75,7 @@ async def run_bt_async(D: dict, suspend: str = "sleep0", seed: int = 0, dup_subs
                 jid = state["njobs"]
                 state["njobs"] += 1
                 when = d.now() + e["delta"] * TICK
-                sched.append({"id": jid, "when": tick(when), "at": len(log)})
+                sched.append({"id": jid, "when": tick(when), "at": len(log), "late": tick(when) < now_tick()})
                 d.schedule(when, make_job(e["prog"], tick(when), jid))
             elif op == "raise":
                 if D.get("stopOnErr"):
@@ -116,10 +116,25 @@ async def run_bt_async(D: dict, suspend: str = "sleep0", seed: int = 0, dup_subs
                 apply(effs)
         return job
 
+    import functools
+
     class Strategy:
-        """Handlers are bound methods, as in applications: every attribute access yields a new, equal method object."""
+        """Handlers are bound methods, callable objects or functools.partial objects, as in applications: every attribute
+        access yields a new, equal method object; partials and callable objects have no __name__ / __qualname__."""
         def __init__(self, fn):
             self._fn = fn
+            kind = rng.choice(["method", "method", "callable", "partial"])
+            if kind == "callable":
+                outer = self
+
+                class CallableHandler:
+                    async def __call__(self, event):
+                        await outer._fn(event)
+                self.on_event = CallableHandler()
+            elif kind == "partial":
+                async def with_arg(tag, event):
+                    await fn(event)
+                self.on_event = functools.partial(with_arg, "tag")
 
         async def on_event(self, event):
             await self._fn(event)
